@@ -57,11 +57,22 @@ func hsCell(t *testing.T, rec *Rec, g *Gates, scn string, cell map[string]any) {
 	if eio == "4" {
 		proto = 4
 	}
+	// a repeated EIO parameter: which value counts is the server's business, but the session must be of ONE revision
+	repeated := eio == "3then4" || eio == "4then3"
+	eioQ := "&EIO=" + eio
+	switch eio {
+	case "absent":
+		eioQ = ""
+	case "3then4":
+		eioQ, proto = "&EIO=3&EIO=4", 4
+	case "4then3":
+		eioQ, proto = "&EIO=4&EIO=3", 3
+	}
 	b64 := cell["b64"].(bool)
 	for n := 1; n <= 3; n++ {
 		nconn, lastSid, lastSock = 0, "", nil
 		obs := map[string]any{"created": false, "nconn": 0, "firstIsOpen": false, "sidMatch": false, "pi": 0, "pt": 0, "maxPayload": 0,
-			"upgrades": []string{}, "initial": "none", "initialIntact": true, "proto": 0, "payloadFormatOk": true, "serverPinged": false, "pongForPing": false, "status": 0}
+			"upgrades": []string{}, "initial": "none", "initialIntact": true, "proto": 0, "payloadFormatOk": true, "serverPinged": false, "pongForPing": false, "status": 0, "fmtRev": 0}
 		s := &Sess{Proto: proto, B64: b64}
 		q := ""
 		if eio == "absent" {
@@ -72,10 +83,7 @@ func hsCell(t *testing.T, rec *Rec, g *Gates, scn string, cell map[string]any) {
 		fmtOK := true
 		collect := func(ps []Pkt) { pkts = append(pkts, ps...) }
 		if cell["transport"] == "websocket" {
-			qq := "transport=websocket"
-			if eio != "absent" {
-				qq += "&EIO=" + eio
-			}
+			qq := "transport=websocket" + eioQ
 			if b64 {
 				qq += "&b64=1"
 			}
@@ -83,16 +91,27 @@ func hsCell(t *testing.T, rec *Rec, g *Gates, scn string, cell map[string]any) {
 			synctest.Wait()
 			obs["status"] = ws.Status
 		} else {
-			qq := "transport=polling"
-			if eio != "absent" {
-				qq += "&EIO=" + eio
-			}
+			qq := "transport=polling" + eioQ
 			if b64 {
 				qq += "&b64=1"
 			}
 			r := w.StartReq("handshake", s, ReqOpt{Query: qq})
 			synctest.Wait()
 			obs["status"] = r.Status
+			if repeated && r.Status == 200 {
+				// the revision whose payload format the handshake response is in: the client goes on in that revision
+				for _, rev := range []int{4, 3} {
+					s.Proto = rev
+					pk, info := w.decodePollBody(s, r.Hdr, r.Body)
+					if ok, _ := info["decodeOk"].(bool); ok && len(pk) > 0 && pk[0].Type == "open" {
+						obs["fmtRev"] = rev
+						r.Pkts, r.decodeOK = pk, true
+						proto = rev
+						break
+					}
+				}
+				s.Proto = proto
+			}
 			collect(r.Pkts)
 			fmtOK = fmtOK && (r.Status != 200 || r.decodeOK)
 			for _, p := range r.Pkts {
@@ -147,6 +166,10 @@ func hsCell(t *testing.T, rec *Rec, g *Gates, scn string, cell map[string]any) {
 		}
 		if lastSock != nil {
 			obs["proto"] = lastSock.Protocol()
+			if repeated && ws != nil {
+				proto = lastSock.Protocol() // no payload format to tell on a socket transport: the client follows the session
+				s.Proto = proto
+			}
 			// heartbeat mode: does the server ping one interval after opening?
 			pinged := false
 			var seen []Pkt
@@ -155,10 +178,7 @@ func hsCell(t *testing.T, rec *Rec, g *Gates, scn string, cell map[string]any) {
 				time.Sleep(pi + time.Millisecond)
 				synctest.Wait()
 			} else {
-				qq := fmt.Sprintf("transport=polling&EIO=%s&sid=%s", eio, s.Sid)
-				if eio == "absent" {
-					qq = "transport=polling&sid=" + s.Sid
-				}
+				qq := fmt.Sprintf("transport=polling%s&sid=%s", eioQ, s.Sid)
 				if b64 {
 					qq += "&b64=1"
 				}
